@@ -94,7 +94,7 @@ def writes_to_xml_writer(b, c):
     return any(x["k"] == "call" and x["call"] is not None and x["call"].is_fn("Writer::<W>::get_mut", "Writer::<W>::inner", "Writer::<W>::into_inner") for x in o)
 
 
-def static_str(fx, b, op):
+def static_str(fx, b, op, _depth=0):
     """Is the &str operand a literal / const / result of a fn returning &'static str?"""
     if op.get("c") == "const":
         if op.get("cdef"):
@@ -122,9 +122,44 @@ def static_str(fx, b, op):
                 why.append("fn %s -> &'static str" % T.short(tgt, 2))
                 continue
             return False, "result of %s" % T.short(tgt, 2)
+        if o["k"] == "arg" and _depth < 2:
+            # a parameter of a private helper: static if declared `&'static str`, or if every call of the helper passes a static string
+            ok, w = _static_param(fx, b, o["l"], _depth)
+            if ok:
+                why.append(w)
+                continue
+            return False, w
         if o["k"] in ("place", "arg", "agg", "resume", "other", "binop"):
             return False, "derived from %s" % o["k"]
     return True, ", ".join(sorted(set(why)))
+
+
+def _static_param(fx, b, idx, depth):
+    try:
+        it = fx.fn_item(b.name)
+    except F.AnchorLost:
+        return False, "parameter of %s" % T.short(b.name, 2)
+    ins = it.get("inputs", [])
+    if idx - 1 < len(ins) and ins[idx - 1].replace(" ", "") == "&'staticstr":
+        return True, "parameter declared &'static str"
+    if not it.get("vis", "").startswith("Restricted"):
+        return False, "parameter of the public fn %s" % T.short(b.name, 2)
+    sites = []
+    for n2, b2 in fx.mir.items():
+        if b2.crate not in CRATES or "::tests::" in n2:
+            continue
+        for c in b2.calls():
+            if not c.macro and (c.rdef == b.name or c.defn == b.name or T.strip_generics(c.defn) == T.strip_generics(b.name)):
+                sites.append((b2, c))
+    if not sites:
+        return False, "parameter of %s, which has no visible caller" % T.short(b.name, 2)
+    for (b2, c) in sites:
+        if idx - 1 >= len(c.args):
+            return False, "call of %s with too few arguments" % T.short(b.name, 2)
+        ok, w = static_str(fx, b2, c.args[idx - 1], depth + 1)
+        if not ok:
+            return False, "%s is called with a non-static name in %s (%s)" % (T.short(b.name, 2), T.short(b2.name, 2), w)
+    return True, "parameter of private %s; all %d call sites pass static names" % (T.short(b.name, 2), len(sites))
 
 
 def check_attribute(chk, fx, name, b, c):
@@ -198,8 +233,13 @@ def r3_delimiter(ctx, chk, fx):
             chk.instance("C10/R3", i["what"], i["fn"], i.get("at"), holds=i["verdict"] == "holds", key="C10/R3 " + i["what"][:60])
     b = fx.body("netconf::message::ClientMsg::to_xml")
     fu = b.calls_to("String::from_utf8", user_only=True)
-    ok = len(fu) == 1 and b.ok_edge_of(fu[0], pass_through=tuple(F.PASS_THROUGH)) is not None
-    chk.instance("C10/R3", "to_xml validates UTF-8 (String::from_utf8(buf)?)", b.name, fu[0].loc() if fu else None, holds=ok, key="C10/R3 to_xml utf8")
+    # validated: the String returned is the checked conversion's Ok payload (through `?`, map_err, or returned as is), never a lossy / unchecked one
+    from vlib import absint as A
+    paths = A.Interp(fx, crates=("netconf",), no_inline=("WriteXml::write_xml",)).explore("netconf::message::ClientMsg::to_xml")
+    oks = [p for p in paths if A.is_res(p.ret) and p.ret[2] == "Ok"]
+    ok = len(fu) == 1 and bool(oks) and all(A.vstr(A.payload0(p.ret)).startswith("String::from_utf8(") and A.vstr(A.payload0(p.ret)).endswith("→Ok.0") for p in oks) \
+        and not b.calls_to("String::from_utf8_lossy", "String::from_utf8_unchecked", "str::from_utf8_unchecked")
+    chk.instance("C10/R3", "to_xml validates UTF-8 (the returned String is String::from_utf8(buf)'s Ok payload)", b.name, fu[0].loc() if fu else None, holds=ok, key="C10/R3 to_xml utf8")
     # AsAttribute impls: each returns a literal pair or an audited Attribute literal
     n = 0
     for name, t in sorted(fx.thir.items()):
